@@ -145,6 +145,9 @@ def cases():
         bvcase("BVLShl by int %d" % sh, ("mgr", "BVLShl"), 1, (lambda s: lambda v, W: (v[0] << s) & M(W) if s < W else 0)(sh), extra=[sh])
         bvcase("BVLShr by int %d" % sh, ("mgr", "BVLShr"), 1, (lambda s: lambda v, W: (v[0] >> s) if s < W else 0)(sh), extra=[sh])
         bvcase("BVAShr by int %d" % sh, ("mgr", "BVAShr"), 1, (lambda s: lambda v, W: refsem.bvashr(v[0], s, W))(sh), extra=[sh])
+        bvcase("shortcuts.BVLShl by int %d" % sh, ("fn", "pysmt.shortcuts", "BVLShl"), 1, (lambda s: lambda v, W: (v[0] << s) & M(W) if s < W else 0)(sh), extra=[sh])
+        bvcase("shortcuts.BVLShr by int %d" % sh, ("fn", "pysmt.shortcuts", "BVLShr"), 1, (lambda s: lambda v, W: (v[0] >> s) if s < W else 0)(sh), extra=[sh])
+        bvcase("shortcuts.BVAShr by int %d" % sh, ("fn", "pysmt.shortcuts", "BVAShr"), 1, (lambda s: lambda v, W: refsem.bvashr(v[0], s, W))(sh), extra=[sh])
         bvcase("infix << %d" % sh, ("meth", "__lshift__"), 1, (lambda s: lambda v, W: (v[0] << s) & M(W) if s < W else 0)(sh), extra=[sh])
         bvcase("infix >> %d" % sh, ("meth", "__rshift__"), 1, (lambda s: lambda v, W: (v[0] >> s) if s < W else 0)(sh), extra=[sh])
     for dn, f in (("__add__", lambda v, W: (v[0] + v[1]) & M(W)), ("__sub__", lambda v, W: (v[0] - v[1]) & M(W)),
